@@ -6,6 +6,7 @@ import Driver.Trunc
 import Driver.TmplData
 import Driver.Retry
 import Driver.Webhook
+import Driver.Email
 import Driver.Gossip
 import Driver.Mesh
 import Driver.TlsFrame
@@ -19,6 +20,7 @@ def engines : List (String × IO UInt32) := [
   ("tmpldata", Driver.runEngine Driver.TmplData.engine),
   ("retry", Driver.runEngine Driver.Retry.engine),
   ("webhook", Driver.runEngine Driver.Webhook.engine),
+  ("email", Driver.runEngine Driver.Email.engine),
   ("gossip", Driver.runEngine Driver.Gossip.engine),
   ("mesh", Driver.runEngine Driver.Mesh.engine),
   ("tlsframe", Driver.runEngine Driver.TlsFrame.engine)
